@@ -30,6 +30,20 @@ def alias_snapshot(env, op):
     return snap
 
 
+def drop_rejected_table_fx(env, snap):
+    """The permitted side effect is the alias of a table that IS self-joined (or of a sub-query that is used).  A call
+    that the library rejected (an ordinary exception, not an injected one) joined nothing: an alias it left on a Table
+    argument is not excused - it is taken out of the snapshot, so the run is neither discarded nor is the effect replayed
+    into the reference model, and the final comparison reports whatever now renders differently.  (Sub-queries keep the
+    excuse: `join(sub)` tags the sub-query before `.on()` can reject the criterion, on the unchanged tree too.)"""
+    res = env.heap[-1]
+    if not (isinstance(res, engine.Failed) and not res.injected):
+        return snap
+    T = lib.get().queries.Table
+    return [(d, a) for d, a in snap
+            if not (a is None and isinstance(env.heap[d], T) and isinstance(lib.state(env.heap[d]).get("alias"), str))]
+
+
 def alias_changed(env, snap):
     for d, a in snap:
         cur = lib.state(env.heap[d]).get("alias")
@@ -41,6 +55,7 @@ def alias_changed(env, snap):
 def record_alias_fx(env, op, before, autoalias):
     """After executing `op`: if the alias of a by-reference argument changed, either record the permitted side effect
     on the op (alias_fx, replayed into the reference model) or say why the run is discarded."""
+    before = drop_rejected_table_fx(env, before)
     if not alias_changed(env, before):
         return None
     if not autoalias:
@@ -72,12 +87,34 @@ def build_program(seed, run, tag=0xC01, overrides=None, prop=PROP):
     env = lang.Env(share_tables=knobs["share_tables"])
     g = gen.Gen(rng, knobs, env)
     discard = None
+    # scripted opening of 30 % of the autoalias runs: an un-aliased heap Table, a statement that takes that very object
+    # as its FROM source, one continuation, then join() calls on the statement - with r_join's by-reference self-join
+    # this is the history in which the library writes an alias into a table (and a rejected join must not)
+    script = ["tbl", "from", "select", "join", "join"] if (prop == PROP and knobs["autoalias"] and rng.random() < 0.3) else []
+    s_tbl = s_q = None
     for _ in range(knobs["nops"]):
-        i = g.next_op()
+        i = None
+        if script:
+            step = script.pop(0)
+            if step == "tbl":
+                i = s_tbl = g.emit({"op": "new", "x": {"t": "table", "name": rng.choice(["a", "b", "c"]), "fresh": True}})
+            elif step == "from" and s_tbl is not None:
+                tv = {"t": "var", "i": s_tbl}
+                i = s_q = g.emit({"op": "new", "x": {"t": "meth", "x": {"t": "cls", "name": rng.choice(knobs["qcls"])},
+                                                     "m": "from_", "a": [tv]}}, scope=[tv])
+            elif step == "select" and s_q is not None and is_object_slot(env.heap[s_q]):
+                i = g.g_call(s_q, "select")
+                if i is not None:
+                    s_q = i
+            elif step == "join" and s_q is not None and is_object_slot(env.heap[s_q]):
+                i = g.g_call(s_q, "join")
+        if i is None:
+            i = g.next_op()
         op = g.program[i]
         before = alias_snapshot(env, op)
         v = engine.exec_op(env, op)
         env.heap.append(v)
+        before = drop_rejected_table_fx(env, before)
         if alias_changed(env, before):
             if not knobs["autoalias"]:
                 discard = "autoalias on a shared object"
@@ -109,6 +146,7 @@ def build_program(seed, run, tag=0xC01, overrides=None, prop=PROP):
             op = g.program[i]
             before = alias_snapshot(env, op)
             env.heap.append(engine.exec_op(env, op))
+            before = drop_rejected_table_fx(env, before)
             if alias_changed(env, before):
                 if not knobs["autoalias"]:
                     discard = "autoalias on a shared object"
@@ -357,6 +395,7 @@ def one_run(seed, run, force_config=None, overrides=None, max_diag=3):
                         continue
                     before = alias_snapshot(env, program[i])
                     env.heap.append(engine.exec_op(env, program[i]))
+                    before = drop_rejected_table_fx(env, before)
                     if alias_changed(env, before):
                         res["discard"] = "autoalias on a shared object"
                         return res, program
